@@ -1,5 +1,6 @@
 import WfProofs.ValidateSpec
 import WfProofs.ValidateExt
+import WfProofs.ValidatePerm
 /-!
 # C23 — workflow validation accepts exactly the well-formed graphs
 
@@ -428,3 +429,58 @@ example :
     let W : List Step := [{ name := 1, accepted := [1], returns := [2, 8] }]
     validateWorkflow exH W [] = .error (.graph { unreach := [], dangling := [8], deadEnd := [] }) ∧
     validateWorkflow exH W [ckTerminal] = .ok false := by decide
+
+/-! ## Extension: the order of the steps does not matter -/
+
+/-- The verdict does not depend on the order of the `steps` dict: for every reordering of the step list, validation
+accepts the one iff it accepts the other, with the same flag; and when it rejects, the two errors stand for the same
+clause and carry the same offending steps / events (as sets). -/
+theorem C23_order_independent (H : Hier) (W W' : List Step) (skip : List Nat) (hp : W.Perm W') (hnd : (names W).Nodup) :
+    (∀ b, validateWorkflow H W skip = .ok b ↔ validateWorkflow H W' skip = .ok b) ∧
+    (∀ e e', validateWorkflow H W skip = .error e → validateWorkflow H W' skip = .error e' →
+      e.kind = e'.kind ∧ SameOffenders e e') := by
+  have hnd' : (names W').Nodup := (names_perm hp).nodup_iff.mp hnd
+  have hm : ∀ s, s ∈ W ↔ s ∈ W' := fun s => hp.mem_iff
+  have one : ∀ (V V' : List Step), V.Perm V' → (names V).Nodup → (names V').Nodup → ∀ b,
+      validateWorkflow H V skip = .ok b → validateWorkflow H V' skip = .ok b := by
+    intro V V' hpv hn hn' b hb
+    have wf := (C23_accepts_iff_wellformed H V skip hn).mp ⟨b, hb⟩
+    obtain ⟨b', hb'⟩ := (C23_accepts_iff_wellformed H V' skip hn').mpr (wellFormed_perm hpv skip wf)
+    have h1 := C23_hitl_flag H V skip b hb
+    have h2 := C23_hitl_flag H V' skip b' hb'
+    have : b = b' := by
+      rw [Bool.eq_iff_iff, h1, h2]
+      exact usesHitl_congr fun s => hpv.mem_iff
+    rw [this]; exact hb'
+  refine ⟨fun b => ⟨one W W' hp hnd hnd' b, one W' W hp.symm hnd' hnd b⟩, ?_⟩
+  intro e e' he he'
+  have m := C23_error_is_first_failure H W skip hnd e he
+  have m' := errorMeaning_perm hp.symm skip e' (C23_error_is_first_failure H W' skip hnd' e' he')
+  have hk := errorMeaning_kind_unique m m'
+  refine ⟨hk, ?_⟩
+  cases e <;> cases e' <;> simp only [Err.kind] at hk <;> try (first | rfl | omega)
+  · exact fun n => (m.2.2 n).trans (m'.2.2 n).symm
+  · exact fun n => (m.2.2.2 n).trans (m'.2.2.2 n).symm
+  · exact fun n => (m.2.2.2.2 n).trans (m'.2.2.2.2 n).symm
+  · rename_i g g'
+    have o := C23_graph_offenders_exact H W skip hnd g he
+    have o' := C23_graph_offenders_exact H W' skip hnd' g' he'
+    refine ⟨fun n => ?_, fun n => ?_, fun n => ?_⟩
+    · rw [o.1 n, o'.1 n]
+      simp only [inputSeed_congr hm, reach_congr hm]
+      apply and_congr Iff.rfl
+      constructor <;> rintro ⟨s, hs, r⟩
+      · exact ⟨s, (hm s).mp hs, r⟩
+      · exact ⟨s, (hm s).mpr hs, r⟩
+    · rw [o.2.1 n, o'.2.1 n, eventType_congr hm, consumed_congr hm]
+    · rw [o.2.2 n, o'.2.2 n]
+      simp only [output_congr hm, reach_congr hm]
+      apply and_congr Iff.rfl
+      constructor <;> rintro ⟨s, hs, r⟩
+      · exact ⟨s, (hm s).mp hs, r⟩
+      · exact ⟨s, (hm s).mpr hs, r⟩
+
+/-- non-vacuity: `exW` reversed is accepted with the same flag; `exBad` reversed is rejected with the same offenders -/
+example : exW.reverse.Perm exW ∧ validateWorkflow exH exW.reverse [] = .ok true ∧
+    validateWorkflow exH exBad.reverse [] = .error (.graph { unreach := [5], dangling := [], deadEnd := [5] }) :=
+  ⟨List.reverse_perm _, by decide, by decide⟩
